@@ -6018,7 +6018,8 @@ int32 psX509AuthenticateCert(psPool_t *pool, psX509Cert_t *subjectCert,
                signature octets alone prove nothing (anyone can copy them
                into a certificate of their own making), so the digest of
                the signed content has to be equal as well. */
-            if (sc->signatureLen == ic->signatureLen
+            if (sc->signature != NULL && ic->signature != NULL
+                && sc->signatureLen == ic->signatureLen
                 && memcmpct(sc->signature, ic->signature, sc->signatureLen) == 0
                 && sc->sigHashLen > 0
                 && sc->sigHashLen == ic->sigHashLen
